@@ -1,5 +1,6 @@
 import ScenicModel.Props.C15Core
 import ScenicModel.Props.C15Deps
+import ScenicModel.Props.C15Sample
 
 /-!
 # C15 — same program, options and seed give identical scenes and runs, every time
@@ -12,4 +13,6 @@ import ScenicModel.Props.C15Deps
   segment order and the source order regenerated from /repo), hence compile + generate as a whole is
   layout independent; the cost-sorted arrangement of the weighted checker is an instance of the
   arrangement theorem.
+* `Props/C15Sample.lean`: the dependency graph itself (`_dependencies` built by `Samplable.__init__`) and its
+  walk by `Samplable.sample` / `sampleAll` (iteration kinds regenerated from /repo) are layout independent.
 -/
